@@ -33,6 +33,10 @@ void SerialEvent::read(AbstractFile & is) {
 }
 
 void SerialEvent::write(AbstractFile & os) {
+    /* pre processing: the general variant's lengths are part of objectSize, which the header declares */
+    general.dataLength = static_cast<uint32_t>(general.data.size());
+    general.timeStampsLength = static_cast<uint32_t>(general.timeStamps.size() * sizeof(int64_t));
+
     ObjectHeader::write(os);
     os.write(reinterpret_cast<char *>(&flags), sizeof(flags));
     os.write(reinterpret_cast<char *>(&port), sizeof(port));
@@ -61,7 +65,8 @@ uint32_t SerialEvent::calculateObjectSize() const {
         sizeof(reservedSerialEvent) +
         16; // size of union of singleByte/compact/general
 
-    if (flags & ~(Flags::SingleByte | Flags::CompactByte))
+    /* the general variant is encoded exactly when neither SingleByte nor CompactByte is set */
+    if (!(flags & (Flags::SingleByte | Flags::CompactByte)))
         size += general.dataLength + general.timeStampsLength;
 
     return size;
